@@ -1,4 +1,5 @@
 import PenneModel.Types.Ops
+import PenneModel.Types.AgreeLemmas
 /-
   C07 — no implicit conversions: ill-typed programs are rejected.  Property theorems over the complete operator ×
   type tables (every operator, every operand type: thirteen primitives, pointers, everything else).
